@@ -477,8 +477,23 @@ func seqLen(cur any) (int, bool) {
 	return 0, false
 }
 
-// invalidSteps lists step texts that must report absence on cur.
-func invalidSteps(cur any) []string {
+// isMapSS reports whether cur (after dereferencing) is a map[string]string.
+func isMapSS(cur any) bool {
+	d, out, _ := deref(cur)
+	if out != reach {
+		return false
+	}
+	_, ok := d.(map[string]string)
+	return ok
+}
+
+// invalidSteps lists step texts that must report absence on cur. avoid is called with the id of
+// an open known finding whose region the candidate steps would fall into; when it returns true
+// those steps are left out.
+func invalidSteps(cur any, avoid func(id string) bool) []string {
+	if isMapSS(cur) && avoid != nil && avoid(kfMapSS) {
+		return nil // missing key of a map[string]string: region of the open finding
+	}
 	if n, ok := seqLen(cur); ok {
 		return []string{strconv.Itoa(n), strconv.Itoa(n + 3), "-1", "-2", "x", "99999999999999999999"}
 	}
